@@ -192,15 +192,15 @@ type Obligation struct {
 	Decls   *Decls
 	Trusted []string
 	// results
-	Status  string // unsat (discharged) | sat | unknown | timeout | error
-	Backend string
-	Seconds float64
-	Model   string
-	Output  string
-	File    string
-	Cover   bool // a reachability (vacuity) query: expected sat
-	Group   string // covers of one group are alternatives (vacuous only if all are refuted)
-	Seq     int
+	Status     string // unsat (discharged) | sat | unknown | timeout | error
+	Backend    string
+	Seconds    float64
+	Model      string
+	Output     string
+	File       string
+	Cover      bool   // a reachability (vacuity) query: expected sat
+	Group      string // covers of one group are alternatives (vacuous only if all are refuted)
+	Seq        int
 	ifacePreds map[string]types.Type
 	world      *World
 }
